@@ -947,6 +947,8 @@ def EDFA(input: optical_signal, G: float, NF: float, BW: float=None):
     
     if input.n_pol == 1:
         output.signal[1] = np.zeros_like(output.signal[0])  # y-polarization of signal is set to zeros.
+        if output.noise is not None:
+            output.noise[1] = np.zeros_like(output.noise[0])  # a one-polarization input carries no noise in y either
 
     # generate ASE noise (2-polarizations with real and imaginary parts)
     # gv.fs is taken as initial bandwidth of noise 
